@@ -10,57 +10,74 @@ Ids == {1, 3, 5}
 VARIABLES sstate,      \* "reachable" | "draining" | "closed"
           maxSeen,     \* t.maxStreamID
           phase,       \* 0 | 1 first GOAWAY + PING written | 2 final goAway item queued | 3 final GOAWAY written
-          finalId, hs, \* hs[id]: "none" | "running" | "done" (status on the wire) | "lost"
+          finalId, hs, \* hs[id]: "none" | "running" | "done" (status on the wire) | "lost" | "dropped" (silently)
           runs,        \* runs[id]: number of times the handler was started
+          pend,        \* id recorded in maxStreamID by operateHeaders, stream not yet registered (0: none)
+          atLock,      \* loopy has taken the final goAway item and is at maxStreamMu.Lock()
           hwire, maxSent, sentAtFinal
-svars == <<sstate, maxSeen, phase, finalId, hs, runs, hwire, maxSent, sentAtFinal>>
+svars == <<sstate, maxSeen, phase, finalId, hs, runs, pend, atLock, hwire, maxSent, sentAtFinal>>
 SInit == /\ sstate = "reachable" /\ maxSeen = 0 /\ phase = 0 /\ finalId = 0
-         /\ hs = [i \in Ids |-> "none"] /\ runs = [i \in Ids |-> 0]
+         /\ hs = [i \in Ids |-> "none"] /\ runs = [i \in Ids |-> 0] /\ pend = 0 /\ atLock = FALSE
          /\ hwire = <<>> /\ maxSent = 0 /\ sentAtFinal = 0
 Running == {i \in Ids : hs[i] = "running"}
 \* the client writes HEADERS for the next id
 CSend(i) == /\ i = maxSent + 2 \/ (maxSent = 0 /\ i = 1)
             /\ i \in Ids /\ sstate # "closed"
             /\ hwire' = Append(hwire, i) /\ maxSent' = i
-            /\ UNCHANGED <<sstate, maxSeen, phase, finalId, hs, runs, sentAtFinal>>
-\* operateHeaders
-SAccept ==
-  /\ hwire # <<>> /\ hwire' = Tail(hwire)
-  /\ LET i == Head(hwire) IN
-     IF sstate = "closed" THEN UNCHANGED <<maxSeen, hs, runs>>
-     ELSE /\ maxSeen' = i
-          /\ IF sstate = "reachable" /\ ~(Mutant = 4 /\ phase >= 1)
-               THEN hs' = [hs EXCEPT ![i] = "running"] /\ runs' = [runs EXCEPT ![i] = @ + 1]
-               ELSE UNCHANGED <<hs, runs>>
-  /\ UNCHANGED <<sstate, phase, finalId, maxSent, sentAtFinal>>
+            /\ UNCHANGED <<sstate, maxSeen, phase, finalId, hs, runs, pend, atLock, sentAtFinal>>
+\* operateHeaders, first half: the id is checked against and recorded in maxStreamID (under maxStreamMu)
+SRecord ==
+  /\ hwire # <<>> /\ pend = 0 /\ hwire' = Tail(hwire)
+  /\ IF sstate = "closed" THEN UNCHANGED <<maxSeen, pend>>
+     ELSE maxSeen' = Head(hwire) /\ pend' = Head(hwire)
+  /\ UNCHANGED <<sstate, phase, finalId, hs, runs, atLock, maxSent, sentAtFinal>>
+\* operateHeaders, second half: under t.mu the stream is registered and handed to a handler, or - when the
+\* transport is no longer reachable - dropped without any frame
+SRegister ==
+  /\ pend # 0 /\ pend' = 0
+  /\ IF sstate = "reachable" /\ ~(Mutant = 4 /\ phase >= 1)
+       THEN hs' = [hs EXCEPT ![pend] = "running"] /\ runs' = [runs EXCEPT ![pend] = @ + 1]
+       ELSE hs' = [hs EXCEPT ![pend] = "dropped"] /\ UNCHANGED runs
+  /\ UNCHANGED <<sstate, maxSeen, phase, finalId, atLock, hwire, maxSent, sentAtFinal>>
 \* GracefulStop -> Drain: GOAWAY(2^31-1) + PING
 SDrain == /\ phase = 0 /\ sstate = "reachable" /\ phase' = 1
-          /\ UNCHANGED <<sstate, maxSeen, finalId, hs, runs, hwire, maxSent, sentAtFinal>>
-\* the PING ack arrives, or the 5 s timer fires
+          /\ UNCHANGED <<sstate, maxSeen, finalId, hs, runs, pend, atLock, hwire, maxSent, sentAtFinal>>
+\* the PING ack arrives, or the 5 s timer fires: the final goAway item is queued
 SPingAckOrTimer == /\ phase = 1 /\ phase' = 2
-                   /\ UNCHANGED <<sstate, maxSeen, finalId, hs, runs, hwire, maxSent, sentAtFinal>>
-\* outgoingGoAwayHandler(!headsUp): the final GOAWAY
-SFinal ==
-  /\ phase = 2 /\ sstate = "reachable" /\ phase' = 3
+                   /\ UNCHANGED <<sstate, maxSeen, finalId, hs, runs, pend, atLock, hwire, maxSent, sentAtFinal>>
+\* loopy takes the item: outgoingGoAwayHandler(!headsUp) reaches maxStreamMu.Lock() - possibly while a new
+\* HEADERS frame is between SRecord and SRegister
+SFinalBegin == /\ phase = 2 /\ ~atLock /\ atLock' = TRUE
+               /\ UNCHANGED <<sstate, maxSeen, phase, finalId, hs, runs, pend, hwire, maxSent, sentAtFinal>>
+\* ... and, holding maxStreamMu and t.mu, sets state = draining, reads maxStreamID and writes the final
+\* GOAWAY.  operateHeaders holds maxStreamMu from SRecord to SRegister, so this waits for pend = 0
+\* (Mutant 5: maxStreamMu only guards the id update).
+SFinalWrite ==
+  /\ atLock /\ phase = 2 /\ sstate = "reachable" /\ (pend = 0 \/ Mutant = 5)
+  /\ atLock' = FALSE /\ phase' = 3
   /\ finalId' = maxSeen /\ sentAtFinal' = maxSent
   /\ IF Running = {} \/ Mutant = 3
        THEN sstate' = "closed" /\ hs' = [i \in Ids |-> IF hs[i] = "running" THEN "lost" ELSE hs[i]]
        ELSE sstate' = "draining" /\ UNCHANGED hs
-  /\ UNCHANGED <<maxSeen, runs, hwire, maxSent>>
+  /\ UNCHANGED <<maxSeen, runs, pend, hwire, maxSent>>
 \* a handler returns; its status is written; the last one closes a draining connection
 HDone(i) ==
   /\ hs[i] = "running" /\ sstate # "closed"
   /\ hs' = [hs EXCEPT ![i] = "done"]
   /\ sstate' = IF sstate = "draining" /\ Running = {i} THEN "closed" ELSE sstate
-  /\ UNCHANGED <<maxSeen, phase, finalId, runs, hwire, maxSent, sentAtFinal>>
-SNext == (\E i \in Ids : CSend(i) \/ HDone(i)) \/ SAccept \/ SDrain \/ SPingAckOrTimer \/ SFinal
+  /\ UNCHANGED <<maxSeen, phase, finalId, runs, pend, atLock, hwire, maxSent, sentAtFinal>>
+SNext == (\E i \in Ids : CSend(i) \/ HDone(i)) \/ SRecord \/ SRegister \/ SDrain \/ SPingAckOrTimer
+         \/ SFinalBegin \/ SFinalWrite
 SSpec == SInit /\ [][SNext]_svars
 
-Started == {i \in Ids : hs[i] # "none"}
+Started == {i \in Ids : hs[i] \in {"running", "done", "lost"}}
 I_FinalId == phase = 3 => FinalIdOK(Max(Started, 0), finalId, sentAtFinal)
 I_NoHandlerAbove == phase = 3 => \A i \in Started : i <= finalId
 P_ServeBelow == \A i \in Ids : hs[i] # "lost"
 I_Once == \A i \in Ids : runs[i] <= 1
 \* streams the client sent before it could know about the drain are served (first GOAWAY is advisory)
-I_AcceptUntilFinal == \A i \in Ids : (phase < 3 /\ i <= maxSeen /\ sstate = "reachable") => hs[i] # "none"
+I_AcceptUntilFinal == \A i \in Ids : (phase < 3 /\ i <= maxSeen /\ i # pend /\ sstate = "reachable") => hs[i] \in {"running", "done"}
+\* a stream is dropped without any frame only if it lies above the final GOAWAY id: every stream at or below
+\* that id is served (or visibly refused), never silently dropped
+I_NoSilentDrop == \A i \in Ids : hs[i] = "dropped" => (phase = 3 /\ i > finalId)
 ====
